@@ -336,4 +336,5 @@ def units(tier):
              space="; ".join(sp.describe() for sp in c03._wspace(tier)) + " used as length matrices x every ordered pair (s,t)"),
         Unit("floyd-random", check, strategy=lambda: floyd_cases(9), examples=(1500, 160000), shards=(8, 16)),
         Unit("navigation", check, strategy=nav_cases, examples=(1000, 96000), shards=(6, 16)),
+        Unit("floyd-random-n<=28", check, strategy=lambda: floyd_cases(28), examples=(48, 800), shards=(12, 16)),
     ]
